@@ -224,8 +224,7 @@ class Ctx:
             lock = open(os.path.join(VERIF, 'build', '.coq.lock'), 'w')
             fcntl.flock(lock, fcntl.LOCK_EX)
             try:
-                if not os.path.exists(os.path.join(COQ, 'Makefile')):
-                    subprocess.run('./mkproject.sh', shell=True, cwd=COQ, check=True)
+                subprocess.run('./mkproject.sh', shell=True, cwd=COQ, check=True)
                 r = subprocess.run('timeout 3000 make -j16', shell=True, cwd=COQ, capture_output=True, text=True)
                 if r.returncode != 0:
                     raise RuntimeError('static Coq theories do not build:\n' + r.stdout[-3000:] + r.stderr[-3000:])
@@ -234,10 +233,10 @@ class Ctx:
                 lock.close()
         # forbidden constructs anywhere in the development
         bad = []
-        dev = os.environ.get('KAWIN_SKIP_STATIC') == '1'
+        enabled = set(open(os.path.join(VERIF, 'manifest.d', 'enabled.txt')).read().split())
         for root, _, files in os.walk(COQ):
-            if dev and os.path.relpath(root, COQ).split(os.sep)[0] not in ('Common', self.prop, '.'):
-                continue       # development mode: other properties' directories may be half-written
+            if os.path.relpath(root, COQ).split(os.sep)[0] not in ({'Common', self.prop, '.'} | enabled):
+                continue       # directories of checks that are not integrated yet may be half-written
             for f in files:
                 if f.endswith('.v'):
                     p = os.path.join(root, f)
